@@ -280,6 +280,7 @@ def run(r):
         "compile-state model: words are abstracted to leaf / sequence / parenthesised lines / fill / try / code macro; index macros and the other state of the compiler (scopes, bindings, experimental flag) are not modelled - the session search compares them behaviourally with a fresh compiler",
         "pre-evaluation cache theorem: pure nodes evaluate alike on every backend (follows from C20_pure_no_effect under prims_respect) and node equality is decided correctly",
         "the clock (now) and the local time zone are read from the host by the trait defaults by design; they are the only listed host-reading defaults",
+        "whole-compile theorems: a program is abstracted to a list of items (top-level line, constant binding, other binding, index macro, end-of-load pass over the function bodies, explicit comptime, code macro, import); the first five are inside the theorems (no backend call outside editor mode, read-only in it, constant bindings silent in every mode), comptime / code macro / import are the explicit exceptions; the item abstraction is compared with the compiler per program and mode (what was folded, what became a constant, whether the backend was called), with the signature condition of the section scan over-approximated by `true`",
     ]
     if not r.harness(["c20"]):
         return
@@ -398,6 +399,80 @@ def run(r):
     for n, ms, x in obs:
         if x["kind"] == "sys" and ms and len(r.coverage["samples"]) < 3:
             r.sample({"op": n, "label": x["pur"], "methods": ms, "safe_sys": x["safe_errs"], "calls": x["sample"][:200]})
+
+    # ---- C: the items of a compile (Gate.citem): what each mode evaluates and calls, model against compiler
+    nitem = 300 if quick else 3000
+    rc, out, erri = run_bin("c20", ["items", nitem, scratch + "-it"], seed=r.seed, timeout=1500)
+    icases = [x for x in json_lines(out) if x.get("k") == "item"]
+    if rc != 0 or not icases:
+        r.broken_obligation("tie:items", "c20 items failed", (out + erri)[-2000:])
+    MODES = ["Lazy", "Line", "Normal", "Lsp"]
+    ijobs, imeta = [], []
+    for ci, c in enumerate(icases):
+        labl = ["(%d%%N, PI %s %s %s)" % (l["id"], l["pur"], str(l["sys"]).lower(), str(l["sendrecv"]).lower()) for l in c["labels"]]
+        for m in c["mlabels"]:
+            mm = re.match(r"\(MOther (\d+) ", m["term"])
+            if mm:
+                labl.append("(%s%%N, PI %s false false)" % (mm.group(1), m["pur"]))
+        its = [("line", "ILine %s" % c["root"]), ("bodies", "IFuncBodies")]
+        if c["constn"]:
+            its.append(("const", "IConstBind %s" % c["constn"]))
+        imeta.append([k for k, _ in its])
+        ijobs.append("Definition tbl%d : list (N * pinfo) := [%s].\nDefinition asm%d : list node := [%s].\n"
+                     "Eval vm_compute in (map (fun mi => item_evaluates (lprim_of tbl%d) (lmod_of tbl%d) asm%d [%s] [%s] (fun _ => false) (fun _ => true) 6000 (fst mi) (snd mi))\n"
+                     "  (list_prod [Lazy; Line; Normal; Lsp] [%s])).\n"
+                     % (ci, "; ".join(labl), ci, "; ".join(c["funcs"]), ci, ci, ci, "; ".join(c["fext"]), "; ".join(c["binds"]), "; ".join(t for _, t in its)))
+    ishard = 25
+    icj = [("c20_items_%d" % si, "From Coq Require Import List ZArith NArith Bool String. Import ListNotations.\nFrom UV Require Import Model.Node Model.Gate.\n" + "\n".join(ch))
+           for si, ch in enumerate(chunks(ijobs, ishard))]
+    ires = coq_eval_many(icj, timeout=900)
+    item_mism, item_checks, model_evals, impl_evals = [], 0, 0, 0
+    for si, (rc2, o) in enumerate(ires):
+        if rc2 != 0:
+            r.broken_obligation("tie-eval:items", "Coq evaluation of item shard %d failed" % si, o[-1500:])
+            continue
+        parts = re.findall(r"=\s*\[(.*?)\]\s*:\s*list bool", o, re.S)
+        if len(parts) != len(icj[si][1].split("Eval vm_compute")) - 1:
+            r.broken_obligation("tie-eval:items", "unexpected output of item shard %d" % si, o[-1500:])
+            continue
+        for k, lst in enumerate(parts):
+            c = icases[si * ishard + k]
+            kinds = imeta[si * ishard + k]
+            vals = [v == "true" for v in re.findall(r"true|false", lst)]
+            for mi, mname in enumerate(MODES):
+                mobs = c["modes"].get(mname)
+                if mobs is None:
+                    continue
+                ev = dict(zip(kinds, vals[mi * len(kinds):(mi + 1) * len(kinds)]))
+                model_evals += sum(ev.values())
+                any_ev = any(ev.values())
+                # what the implementation evaluated must be something the model hands to evaluation
+                checks = [("funcs_folded", mobs["funcs_folded"], ev["bodies"]),
+                          ("root_folded", mobs["root_folded"] and not (mobs["const"] and not c["lazy_const"]), ev["line"]),
+                          ("became_const", mobs["const"] and not c["lazy_const"], ev.get("const", False))]
+                for what, seen, allowed in checks:
+                    item_checks += 1
+                    impl_evals += 1 if seen else 0
+                    if seen and not allowed:
+                        item_mism.append({"program": c["program"], "mode": mname, "what": what, "model": ev, "implementation": mobs})
+                # a backend call while compiling: only if the model evaluates something, and only in editor mode
+                if mobs["called"] and not (any_ev and mname == "Lsp"):
+                    item_mism.append({"program": c["program"], "mode": mname, "what": "backend called", "model": ev, "implementation": mobs})
+                # a constant binding never calls, in any mode
+                if mobs["called"] and c["constn"] and len(kinds) == 3 and not (ev["line"] or ev["bodies"]):
+                    item_mism.append({"program": c["program"], "mode": mname, "what": "constant binding called the backend", "model": ev, "implementation": mobs})
+                # nothing is evaluated in Lazy mode; top-level lines are not evaluated at or below Line mode
+                if mname == "Lazy" and any_ev:
+                    item_mism.append({"program": c["program"], "mode": mname, "what": "model evaluates in Lazy", "model": ev})
+    r.coverage["items_tie"] = {"kind": "C", "programs": len(icases), "by_kind": {k: sum(1 for c in icases if c["kind"] == k) for k in ("line", "constbind", "funcbind", "indexmacro")},
+                               "checks": item_checks, "mismatches": len(item_mism), "model_says_evaluated": model_evals, "implementation_evaluated": impl_evals,
+                               "compiles_with_backend_calls": sum(1 for c in icases for m in c["modes"].values() if m["called"])}
+    if item_mism:
+        r.broken_obligation("tie:Gate.v~compile-items", "model and implementation disagree on what a compile evaluates or calls (%d cases), e.g. %s"
+                            % (len(item_mism), json.dumps(item_mism[0], ensure_ascii=False)[:600]), json.dumps(item_mism[:5], ensure_ascii=False))
+    if icases:
+        c = icases[min(5, len(icases) - 1)]
+        r.sample({"compile_item": c["kind"], "program": c["program"], "per_mode": c["modes"]})
 
     # ---- search: the ANSWER of a system function under SafeSys / a backend without overrides must not depend on the host
     rc, out, errh = run_bin("c20", ["hostdep", 0, scratch + "-hd"], seed=r.seed, timeout=900)
@@ -699,7 +774,7 @@ def run(r):
     for d in glob.glob(scratch + "-*"):
         shutil.rmtree(d, ignore_errors=True)
 
-    r.coverage["evaluations"] = s.get("compiles", 0) + sum(x["tries"] * 3 for x in ops) + nodes + (ss.get("steps") or 0)
+    r.coverage["evaluations"] = s.get("compiles", 0) + sum(x["tries"] * 3 for x in ops) + nodes + (ss.get("steps") or 0) + item_checks
     r.coverage["distinct_nontrivial"] = (s.get("nonempty_logs") or 0) + sum(1 for n_, ms, x in obs if ms) + true_pure
     r.coverage["rule"] = ("(1) compile search: %d system-function snippets x %d syntactic contexts (top level, functions, fills, un/under/anti/obverse, index and code macros, "
                           "comptime, modules, imports, data definitions, recursion, loops) x 4 pre-evaluation modes, each compiled on a fresh compiler with the recording backend "
@@ -711,7 +786,8 @@ def run(r):
                           "backend (deny-all and canned) and on SafeSys over an argument pool of paths, numbers, byte arrays, command lines and handle values: observed methods within "
                           "effects_of and within the purity label; (5) every system function under SafeSys and under a backend without overrides on targets that exist on the host "
                           "(scratch file and directory, /, ., /etc/passwd, set environment variables) and on missing counterparts: same outcome required; (6) gate tie on sub-trees "
-                          "of compiled programs, backend-choice tie, tables and trait-method ties, default-body scan, static containment scan, regression corpus of all repaired "
+                          "of compiled programs, compile-item tie (programs of one item kind each - line, constant binding, function binding, index macro - in 4 modes: what the "
+                          "implementation folded / made constant / called against Gate.item_evaluates), backend-choice tie, tables and trait-method ties, default-body scan, static containment scan, regression corpus of all repaired "
                           "findings.  non-trivial = compiles during which the backend was called + operations that reached a backend method + sub-trees judged pure + rejected "
                           "session steps" % (s.get("snippets") or 0, len(s.get("contexts") or {}), ss.get("failing_snippets"), ss.get("probes")))
     r.coverage["distinct_nontrivial"] += ss.get("rejected_steps") or 0
